@@ -6,70 +6,59 @@ From Verif Require Import Fmt.Ast Fmt.Print Fmt.Parse Fmt.Wf Fmt.Roundtrip C08.M
 Import ListNotations.
 Local Open Scope nat_scope.
 
-(* hypotheses are satisfiable by a non-trivial value (every proved constructor, depth 8, a `::` slice) *)
+(* hypotheses are satisfiable by a non-trivial value (every proved constructor, depth 8, `::` slice, 2.0) *)
 Example C08_nonvacuous :
-  ladder_wf w_big /\ ~ Known_C08 w_big /\
-  parse_expr (need w_big) (print_expr w_big ++ [TNewline]) = POk (w_big, [TNewline]).
-Proof.
-  destruct big_ok as (W & K2 & P). split; [exact W|]. split; [|exact P].
-  unfold Known_C08, Known_C08_float_integral. congruence.
-Qed.
+  ladder_wf w_big /\ parse_expr (need w_big) (print_expr w_big ++ [TNewline]) = POk (w_big, [TNewline]).
+Proof. exact big_ok. Qed.
 
-(* T1  parse (print e ++ rest) = (e, rest): the printer inserts no parentheses, so this is exactly the
-       statement that Paren nodes (ladder_wf) suffice; explicit fuel bound 20 * size e.
+(* T1  parse (print e ++ rest) = (e, rest) for EVERY ladder_wf expression — no finding class is left in the core:
+       the printer inserts no parentheses, so this is exactly the statement that Paren nodes (ladder_wf) suffice;
+       explicit fuel bound 20 * size e.
        _partial: ladder_wf excludes dict/set literals and closures (modelled and tied, not proved); match, if,
        comprehensions, f-strings, yield, statements and declarations are not in the Coq fragment at all. *)
 Theorem C08_expr_roundtrip_partial : forall e rest fuel,
-  ladder_wf e -> ~ Known_C08 e -> stop 0 rest -> need e <= fuel ->
+  ladder_wf e -> stop 0 rest -> need e <= fuel ->
   parse_expr fuel (print_expr e ++ rest) = POk (e, rest).
-Proof.
-  intros e rest fuel W K Hs Hf.
-  apply expr_roundtrip; try assumption.
-  destruct (has_intfloat e) eqn:E; [exfalso; apply K; exact E | reflexivity].
-Qed.
+Proof. intros e rest fuel W Hs Hf. apply expr_roundtrip_full; assumption. Qed.
 Print Assumptions C08_expr_roundtrip_partial.
 
-(* T2  for EVERY ladder_wf expression: the result is e with each integral float replaced by the int (exactly the
-       meaning change of finding fmt-float, nothing else) *)
-Theorem C08_expr_roundtrip_modulo_float : forall e rest fuel,
-  ladder_wf e -> stop 0 rest -> need e <= fuel ->
-  parse_expr fuel (print_expr e ++ rest) = POk (defloat e, rest).
-Proof. intros e rest fuel W Hs Hf. apply expr_roundtrip_norm; assumption. Qed.
-Print Assumptions C08_expr_roundtrip_modulo_float.
+(* T2  regression witness for the repaired float arm (fix: Debug form): 1.0 stays a float *)
+Theorem C08_float_fixed : exists e, ladder_wf e /\ float_integral e /\ parse_expr 100 (print_expr e) = POk (e, []).
+Proof. destruct float_fixed as (W & K & _ & P). eexists. repeat split; eassumption. Qed.
+Print Assumptions C08_float_fixed.
 
-(* T3  the float class really changes meaning *)
-Theorem C08_float_refuted : exists e e', ladder_wf e /\ Known_C08_float_integral e /\
-  parse_expr 100 (print_expr e) = POk (e', []) /\ e' <> e.
-Proof. destruct float_refuted as (W & K & P & N). eexists _, _. repeat split; eassumption. Qed.
-Print Assumptions C08_float_refuted.
-
-(* T4  a slice printed with the `::` token round-trips (it did not before /repo 974c053; the class is gone) *)
+(* T3  regression witness for the `::` slice (parser fix 974c053) *)
 Theorem C08_slice_colon_colon_roundtrips : exists e, ladder_wf e /\ slice_colon_colon e /\
   parse_expr 100 (print_expr e ++ [TNewline]) = POk (e, [TNewline]).
 Proof. destruct colon_colon_roundtrips as (W & K & _ & P). eexists. repeat split; eassumption. Qed.
 Print Assumptions C08_slice_colon_colon_roundtrips.
 
-(* T5  closures with parameters: the source spelling parses, the printed spelling does not *)
+(* T4  regression witnesses for the repaired declaration-level arms: `mut`, type parameters, tuple and unit types
+       are printed again (the arms are injective on what they used to drop) *)
+Theorem C08_repaired_arms :
+  (forall n t d, print_param {| p_mut := true; p_name := n; p_ty := t; p_default := d |}
+              <> print_param {| p_mut := false; p_name := n; p_ty := t; p_default := d |}) /\
+  (forall n tp tps ps r, print_fn_header n (tp :: tps) ps r <> print_fn_header n [] ps r) /\
+  (forall ts, print_ty (TyTuple ts) <> print_ty (TyGeneric id_Tuple ts)) /\
+  print_ty TyUnit = [TPu PLParen; TPu PRParen].
+Proof.
+  split; [exact mut_param_fixed|]. split; [exact type_params_fixed|].
+  split; [intros ts; exact (proj1 (tuple_type_fixed ts)) | exact unit_type_fixed].
+Qed.
+Print Assumptions C08_repaired_arms.
+
+(* T5  still open: closures with parameters — the source spelling parses, the printed spelling does not *)
 Theorem C08_closure_refuted : exists ts e, parse_expr 100 ts = POk (e, []) /\ parse_expr 100 (print_expr e) = PErr.
 Proof. destruct closure_refuted as [A B]. eexists _, _. split; eassumption. Qed.
 Print Assumptions C08_closure_refuted.
 
-(* T6  printer arms that drop information (no parser can invert them) *)
-Theorem C08_lossy_arms_refuted :
-  (forall c t1 e1 t2 e2, print_if_expr c t1 e1 = print_if_expr c t2 e2) /\
-  (forall n t d, print_param {| p_mut := true; p_name := n; p_ty := t; p_default := d |}
-               = print_param {| p_mut := false; p_name := n; p_ty := t; p_default := d |}) /\
-  (forall n tps ps r, print_fn_header n tps ps r = print_fn_header n [] ps r) /\
-  (forall ts, print_ty (TyTuple ts) = print_ty (TyGeneric id_Tuple ts) /\ TyTuple ts <> TyGeneric id_Tuple ts) /\
-  print_ty TyUnit = [TKw KNone].
-Proof.
-  split; [exact if_expr_refuted|]. split; [exact mut_param_refuted|]. split; [exact type_params_refuted|].
-  split; [exact tuple_type_refuted|exact unit_type_refuted].
-Qed.
-Print Assumptions C08_lossy_arms_refuted.
+(* T6  still open: the Expr::If arm drops both bodies (no parser can invert it) *)
+Theorem C08_if_expr_refuted : forall c t1 e1 t2 e2, print_if_expr c t1 e1 = print_if_expr c t2 e2.
+Proof. exact if_expr_refuted. Qed.
+Print Assumptions C08_if_expr_refuted.
 
-(* T7  parser_output_wf is FALSE for statements: the parser's desugaring of `t op= rhs` produces an AST
-       outside ladder_wf, and formatting it changes the meaning *)
+(* T7  still open: parser_output_wf is FALSE for statements: the parser's desugaring of `t op= rhs` produces an
+       AST outside ladder_wf, and formatting it changes the meaning *)
 Theorem C08_parser_output_wf_refuted : exists ts s,
   parse_stmt 100 ts = POk (s, []) /\ forallb wfb (stmt_exprs s) = false /\
   exists s', parse_stmt 100 (print_stmt s) = POk (s', []) /\ s' <> s.
